@@ -170,6 +170,9 @@ def make_ops():
     add("sign EdDSA [ed key, allow-list]", lambda f, d: obs_sign(call(jws.serialize_compact, {"alg": "EdDSA"}, PT, f["ed"], algorithms=["EdDSA"]), K("Ed25519")))
     add("verify HS512 not allowed by default [oct key]", lambda f, d: obs_verify(call(jws.deserialize_compact, ref_token("HS512", "oct32"), f["oct"])))
     add("verify HS512 allow-list [oct key]", lambda f, d: obs_verify(call(jws.deserialize_compact, ref_token("HS512", "oct32"), f["oct"], algorithms=["HS512"])))
+    add("verify HS256 allow-list HS256 only [oct key]", lambda f, d: obs_verify(call(jws.deserialize_compact, ref_token("HS256", "oct32"), f["oct"], algorithms=["HS256"])))
+    add("verify HS384 rejected by allow-list HS256 [oct key]", lambda f, d: obs_verify(call(jws.deserialize_compact, ref_token("HS384", "oct32"), f["oct"], algorithms=["HS256"])))
+    add("decrypt A192KW allow-list [oct24 key]", lambda f, d: obs_decrypt(call(jwe.decrypt_compact, ref_jwe("A192KW", "oct24"), A.jkey(K("oct24"), "bytes"), algorithms=["A192KW", "A128GCM"])))
     add("sign HS512 [shared JWSRegistry]", lambda f, d: obs_sign(call(jws.serialize_compact, {"alg": "HS512"}, PT, f["oct"], registry=f["jwsreg"]), K("oct32")))
     add("verify HS384 rejected [shared JWSRegistry]", lambda f, d: obs_verify(call(jws.deserialize_compact, ref_token("HS384", "oct32"), f["oct"], registry=f["jwsreg"])))
     add("sign with foo header [custom JWSRegistry]", lambda f, d: obs_sign(call(jws.serialize_compact, {"alg": "HS256", "foo": "x"}, PT, f["oct"], registry=f["jwsreg_custom"]), K("oct32")))
@@ -274,8 +277,9 @@ class SeqModel:
         return out
 
     def canon(self, st):
+        from ..history import canon_state
         fx = st["fx"]
-        return (canon_modules(), tuple((k, canon_obj(v)) for k, v in sorted(fx.items())))
+        return canon_state(*[fx[k] for k in sorted(fx)])
 
     def bucket(self, obs):
         return str(obs[0]) + (":" + str(obs[1])[:20] if obs[0] == "rej" else "")
@@ -314,6 +318,8 @@ CONC_MENU = [
     "verify ES256 by kid [ec key set]", "encrypt ECDH-ES [ec public key]", "encrypt A128GCMKW [oct16 key, allow-list]",
     "encrypt A128KW+A128CBC-HS256 [oct16 key]", "encrypt dir+A256GCM [oct key]", "decrypt ECDH-ES [ec key]", "decrypt dir+A256GCM [oct key]",
     "jwt.encode HS256 [oct key]", "verify HS512 allow-list [oct key]", "verify HS512 not allowed by default [oct key]", "key set as_dict",
+    "verify HS256 allow-list HS256 only [oct key]", "verify HS384 rejected by allow-list HS256 [oct key]", "decrypt A192KW allow-list [oct24 key]",
+    "decrypt A192KW not allowed by default",
 ]
 _ISO = {}
 NEEDS = {}
@@ -374,7 +380,7 @@ def numbers_of(key):
     return rjwk.export(raw, private=key.is_private)
 
 
-QUICK_MENU = [0, 1, 2, 5, 6, 7, 8, 9, 10, 11, 12, 15, 17, 18, 20]
+QUICK_MENU = [0, 1, 2, 5, 6, 7, 8, 9, 11, 15, 18, 20, 21, 22]
 
 
 def h_pairs(ctx):
